@@ -99,27 +99,31 @@ pub fn run(kind: &str, args: &[&str]) -> Option<Obs> {
             let (lo, n) = (u(args[0]), u(args[1]));
             for fg in lo..lo + n {
                 for bg in 0..=255u8 {
-                    obs_attr(&mut v, TextAttribute::from_color(fg as u8, bg));
+                    // packed: fg | bg << 8 | attr << 16 | font_page << 32 (colours of from_color are u8-derived)
+                    let a = TextAttribute::from_color(fg as u8, bg);
+                    assert!(a.get_foreground() < 256 && a.get_background() < 256 && a.get_font_page() < (1 << 30));
+                    v.push(a.get_foreground() as i64 | (a.get_background() as i64) << 8 | (a.attr as i64) << 16 | (a.get_font_page() as i64) << 32);
                 }
             }
         }
-        // bold / blink setters and getters on flag words lo..lo+n:
-        // per word [blink:=true, blink:=false, bold:=true, bold:=false, is_bold, is_blinking]
+        // bold / blink setters and getters on flag words lo..lo+n, two packed numbers per word:
+        // (blink:=true) | (blink:=false) << 16 | is_blinking << 32 ; (bold:=true) | (bold:=false) << 16 | is_bold << 32
         "flags" => {
             let (lo, n) = (u(args[0]), u(args[1]));
             for w in lo..lo + n {
                 let a = mk(7, 0, w as u16, 0);
-                for (which, val) in [(0, true), (0, false), (1, true), (1, false)] {
+                let mut r = [0i64; 4];
+                for (i, (which, val)) in [(0, true), (0, false), (1, true), (1, false)].into_iter().enumerate() {
                     let mut b = a;
                     if which == 0 {
                         b.set_is_blinking(val);
                     } else {
                         b.set_is_bold(val);
                     }
-                    v.push(b.attr as i64);
+                    r[i] = b.attr as i64;
                 }
-                v.push(a.is_bold() as i64);
-                v.push(a.is_blinking() as i64);
+                v.push(r[0] | r[1] << 16 | (a.is_blinking() as i64) << 32);
+                v.push(r[2] | r[3] << 16 | (a.is_bold() as i64) << 32);
             }
         }
         // convert_to_unicode on code points lo..lo+n (-1 where the value is not a char)
